@@ -1081,6 +1081,81 @@ class PrevMon(mon.Monitor):
         return (st,)
 
 
+class MarkMon(mon.Monitor):
+    """state: the marker field has been written on this path"""
+    init = (False,)
+
+    def __init__(self, hc, fname):
+        super().__init__()
+        self.hc, self.fname = hc, fname
+
+    def step(self, st, ev):
+        kind, n = ev[0], ev[1]
+        hc = self.hc
+        if kind == "node":
+            k = n.get("k")
+            if k in ("Assign", "AssignOp") and tast.contains(n["l"], lambda z: hc.field_is(z, self.fname)):
+                return (True,)
+            if k == "MethodCall" and n.get("name") in ("push", "extend", "extend_from_slice", "copy_from_slice", "clone_from_slice", "resize", "insert", "fill") \
+                    and tast.contains(n["recv"], lambda z: hc.field_is(z, self.fname)):
+                return (True,)
+        if kind in ("return", "fn_end"):
+            fl = ((n.get("e") or {}).get("def") or "") if kind == "return" else None
+            if fl != FLAG + "Interrupt" and not st:
+                self.violate("unmarked", "a path leaves the callback without writing `%s`" % self.fname, n, self.cur_trail)
+        return (st,)
+
+
+def r_evt_init_mark(rep, hc):
+    """the test that turns off crossing detection ("this is the initial callback, only remember the event values") must be
+    false on every later callback: it may compare xold with x, or test a field of the handler for emptiness / a flag that
+    EVERY non-terminal path through the callback writes. A field that is only written when something is reported (the
+    output times) stays empty while t_eval has not been reached, and sign changes before the first requested time are lost."""
+    key = "R-EVT-INIT:%s" % hc.fn
+    df = hc.detect_for()
+    if df is None:
+        rep.inconc("R-EVT-INIT", key, "detection loop not found")
+        return
+    guard = None
+    for i_, parents in tast.find_with_parents(hc.body["body"], lambda z: z.get("k") == "If" and z.get("else") is not None):
+        in_else = tast.contains(i_["else"], lambda z: z is df)
+        in_then = tast.contains(i_["then"], lambda z: z is df)
+        if not (in_else or in_then):
+            continue
+        other = i_["then"] if in_else else i_["else"]
+        # the other branch only stores the current event values
+        if tast.contains(other, lambda z: z.get("k") == "MethodCall" and z.get("name") in ("copy_from_slice", "clone_from_slice") and hc.field_is(z["recv"], "prev_event")) \
+                and not tast.contains(other, lambda z: z.get("k") == "For"):
+            guard = (i_, in_else)
+    if guard is None:
+        rep.inconc("R-EVT-INIT", key, "the test separating the initial callback from detection was not found")
+        return
+    i_, detect_in_else = guard
+    c = i_["cond"]
+    fields = []
+    for q in tast.find(c, lambda z: z.get("k") == "Field" and z["e"].get("k") in ("Path", "Unary") and (z.get("fdef") or "").startswith("solve::solout::DefaultSolOut::")):
+        fields.append(q["name"])
+    uses_x = tast.contains(c, lambda z: z.get("k") == "Path" and z.get("id") == hc.pid[2]) and tast.contains(c, lambda z: z.get("k") == "Path" and z.get("id") == hc.pid[1])
+    if uses_x and not fields:
+        rep.ok("R-EVT-INIT", key, "detection is skipped exactly under a comparison of xold with x (`%s`)" % tast.render(c)[:60])
+        return
+    if not fields:
+        rep.inconc("R-EVT-INIT", key, "the initial-callback test `%s` refers to no handler field and not to xold / x" % tast.render(c)[:80], sp(i_))
+        return
+    bad = []
+    for fn_ in sorted(set(fields)):
+        m = MarkMon(hc, fn_)
+        mon.Runner(m).run_fn(hc.body)
+        if m.violations:
+            bad.append((fn_, m.violations[0]))
+    if bad:
+        fn_, v = bad[0]
+        rep.violation("R-EVT-INIT", key, "crossing detection is switched off while `%s` holds, but `%s` is not written on every non-terminal path through the callback (%s): "
+                      "on later callbacks the test can still be true and sign changes in those steps are never examined" % (tast.render(c)[:60], fn_, v[1]), sp(i_))
+    else:
+        rep.ok("R-EVT-INIT", key, "detection is skipped only under `%s`, whose field(s) %s are written on every non-terminal path of every callback" % (tast.render(c)[:60], sorted(set(fields))))
+
+
 def r_prev_update(rep, hc):
     m = PrevMon(hc)
     mon.Runner(m).run_fn(hc.body)
@@ -1399,6 +1474,62 @@ def r_dir_mirror(rep, hc):
         rep.inconc("R-DIR-MIRROR", key, "only %d direction-dependent comparison pair(s) found (expected >= 2)" % n)
     else:
         rep.ok("R-DIR-MIRROR", key, "%d forward/backward comparison pairs are mirror images under time reflection" % n)
+
+
+def r_time_order(rep, hc):
+    """an ordering test between two time points (t1 - t2 compared with a tolerance, not under abs) means opposite things for
+    the two directions of integration: it must be made under a known direction. Decided on the two direction-forced runs of
+    the handler: a comparison of a time difference that is evaluated in the SAME form in the forward and in the backward run
+    is direction-blind."""
+    import re
+    xoldn, xn = hc.pname[1], hc.pname[2]
+
+    def is_time(a):
+        return a in (xoldn, xn) or "t_eval" in a or re.search(r"place:[\d.]+\.t\]", a) is not None
+
+    def collect(sx):
+        out = {}
+
+        def walk(cv, node):
+            a = cv.single_atom() if isinstance(cv, Poly) else None
+            d = DEFS.get(a) if a else None
+            if not d:
+                return
+            if d[0] in ("and", "or", "not", "maporr"):
+                for x_ in d[1]:
+                    if isinstance(x_, Poly):
+                        walk(x_, node)
+                return
+            if d[0] not in ("lt", "le", "gt", "ge") or len(d[1]) != 2 or not all(isinstance(q, Poly) for q in d[1]):
+                return
+            p_ = d[1][0] - d[1][1]
+            lin = [(m[0][0], c) for m, c in p_.t.items() if len(m) == 1 and m[0][1] == 1]
+            if len(lin) != len(p_.t) - (1 if () in p_.t else 0):
+                return            # products / powers: not a plain difference
+            pts = [(a_, c) for a_, c in lin if not a_.startswith(("self.", "const:"))]
+            if len(pts) != 2 or pts[0][1] + pts[1][1] != 0 or abs(pts[0][1]) != 1:
+                return
+            if not any(is_time(a_) for a_, _ in pts):
+                return
+            if not [a_ for a_, c in lin if a_.startswith("self.")] and () not in p_.t:
+                return            # x vs xold with no slack: the direction test itself
+            out[re.sub(r"#\d+", "", a)] = node
+        for ev in sx.trace:
+            if ev["kind"] == "if" and ev.get("cond") is not None:
+                walk(ev["cond"], ev["node"])
+            elif ev["kind"] == "map_or":
+                walk(ev["value"], ev["node"])
+        return out
+    key = "R-TIME-ORDER:%s" % hc.fn
+    cf, cb = collect(hc.dir_run("fwd")), collect(hc.dir_run("bwd"))
+    both = sorted(set(cf) & set(cb))
+    if both:
+        rep.violation("R-TIME-ORDER", key, "the ordering test `%s` between two time points is evaluated in the same form when integrating forward and backward: "
+                      "it holds for one direction and fails for the other" % both[0][:160], sp(cf[both[0]]))
+    elif len(cf) + len(cb) < 4:
+        rep.inconc("R-TIME-ORDER", key, "only %d direction-dependent time comparisons found" % (len(cf) + len(cb)))
+    else:
+        rep.ok("R-TIME-ORDER", key, "%d forward / %d backward ordering tests between time points, none shared by both directions" % (len(cf), len(cb)))
 
 
 # ------------------------------------------------------------------------------------- R-TIME-MINMAX
